@@ -412,6 +412,14 @@ func TestC03_Depth(t *testing.T) {
 			} else {
 				msg = noPanic(text, data.Build)
 			}
+			if n > 10000 && strings.HasPrefix(msg, "fatal error: stack overflow") && kfOpen("stack-overflow-deep-nesting") {
+				// the recorded finding: recursion depth is unbounded, and a
+				// nesting of 10^5 and more can exhaust the goroutine stack.
+				// Excluded (and counted); any other failure at these depths,
+				// and any failure at depth <= 10^4, is still reported.
+				c.Exclude("stack-overflow-deep-nesting")
+				continue
+			}
 			if msg != "" {
 				c.Fail(t, run.Replay{Check: "depth", Kind: "custom:c03-depth", Calls: []run.Call{call}, Message: fmt.Sprintf("%s nested %d deep: %s", kind, n, msg)}, kind)
 				return
